@@ -214,6 +214,12 @@ Definition pure_history (k : nat) : tok := tlist (fun _ : unit => tbool true) (r
     H2): the order in which the matcher's mapping lists the pattern atoms (it fixes the ids h_to_explicit invents) and
     the re-matches of _get_explicit_map, both re-validated here. *)
 Definition same_set (a b : list N) : bool := forallb (fun x => mem x b) a && forallb (fun x => mem x a) b && nodupb a.
+(** [run_c04k]: the same plus the reactor's own KEPT mappings (after the pruning by rule automorphisms; at most 8, implicit
+    path only): is a regenerating ITS among what its_list builds from them? *)
+Definition kept_regenerates (core invert : bool) (G H : hostg) (kept : list mapping) : bool :=
+  existsb (fun f => match f with
+                    | Some f' => regen_folded f' (if invert then H else G) (if invert then G else H)
+                    | None => false end) (its_list core invert G H kept).
 Definition run_c04 (core invert guard : bool) (G H : hostg) (remaps : option (list N * list mapping)) : tok :=
   let T := its_construct G H in
   let rc0 := get_rc T in
@@ -267,3 +273,6 @@ Definition run_c04 (core invert guard : bool) (G H : hostg) (remaps : option (li
          tlist (fun xg : mapping * option its => match snd xg with Some g => tbool (regen_exact g host other) | None => L [] end)
                (match remaps with None => glued | Some _ => [] end)]
   end.
+
+Definition run_c04k (core invert guard : bool) (G H : hostg) (remaps : option (list N * list mapping)) (kept : list mapping) : tok :=
+  L [run_c04 core invert guard G H remaps; tbool (kept_regenerates core invert G H kept)].
